@@ -614,6 +614,9 @@ PROBES = [
     ("array-likes-through-call", "[[].slice.call('abc').join('|'), [].slice.call({0: 'a', 1: 'b', length: 2}).join(), [].join.call({length: 2, 0: 'a', 1: 'b'}, '-'), Array.prototype.map.call('ab', function (c) { return c + c }).join(),"
      " [].every.call(new Uint8Array([1, 2]), function (x) { return x > 0 }), Array.prototype.indexOf.call('abc', 'b'), (function () { try { [].push.call({length: 0}, 1); return 'accepted' } catch (e) { return e.name } })(),"
      " (function () { try { [].slice.call({length: 1e12}); return 'accepted' } catch (e) { return e.name } })()].join(';')", "a|b|c;a,b;a-b;aa,bb;true;1;TypeError;RangeError"),
+    ("bind-on-a-built-in-method-is-lazy", "var f = 'abc'.toUpperCase.bind(5); var r; try { f(); r = 'ran' } catch (e) { r = e.name } var g = 'x'.toUpperCase.bind('abc'); r + '|' + g() + '|' + [].slice.bind([1, 2, 3], 1)().join()", "TypeError|ABC|2,3"),
+    ("array-like-length-and-concat", "[[].slice.call({length: '2', 0: 1, 1: 2}).join(), [].slice.call({0: 1}).length, [].slice.call(5).length, JSON.stringify(Array.prototype.concat.call('ab', 'c')), JSON.stringify([1].concat([2], 3))].join(';')", '1,2;0;0;["ab","c"];[1,2,3]'),
+    ("delete-evaluates-its-operand", "var n = 0; function f() { n++; return 1 } var r = delete f(); var s = delete (n++, 5); [r, s, n, delete 0, delete nope].join()", "true,true,2,true,true"),
     ("booleans-have-no-number-methods", "[typeof true.toFixed, typeof false.toPrecision, true.toString(), false.valueOf(), typeof (5).toFixed, true.toString.call(false)].join()", "undefined,undefined,true,false,function,false"),
     ("delete-recreate-order", "var o = {b: 2, c: 3}; delete o.b; o.b = 4; Object.keys(o).join()", "c,b"),
     ("delete-recreate-order-accessor", "var o = {get a() { return 1; }, b: 2, c: 3}; delete o.b; o.b = 4; var ks = []; for (var k in o) ks.push(k); Object.keys(o).join() + '|' + ks.join() + '|' + JSON.stringify(Object.entries(o))",
